@@ -17,6 +17,7 @@ import TboxModel.C20.WProofs
 import TboxModel.C20.CronProofs
 import TboxModel.C20.CCronProofs
 import TboxModel.C20.CCronFwd
+import TboxModel.C20.CCronMin
 namespace Tbox.C20
 
 /-! ### Part 1 — the next-instant computations -/
@@ -126,19 +127,20 @@ theorem C20_targets_strictly_increase (a : Alarm) (e : Env) (hcls : a.cls ≠ .o
     ((expire a e).1.st = .running → a.target < (expire a e).1.target ∧ e.sec < (expire a e).1.target) ∧
     ((expire a e).1.st ≠ .running → (expire a e).1.timer = none) ∧
     (expire a e).2.1 = a.target := by
-  have hex : (expire a e).1 = (activeTimer { a with timer := none, st := .inited, nFired := a.nFired + 1, lastServed := a.target } e).1 := by
+  have hex : (expire a e).1 = rearm { a with timer := none, st := .inited, nFired := a.nFired + 1, lastServed := a.target } e := by
     unfold expire; cases hc : a.cls <;> simp_all
   refine ⟨?_, ?_, by rw [expire_served]⟩
   · intro hrun
     rw [hex] at hrun ⊢
-    rcases activeTimer_cases { a with timer := none, st := .inited, nFired := a.nFired + 1, lastServed := a.target } e with ⟨hok, _, _⟩ | ⟨_, heq⟩
-    · have hbase : Alarm.base { a with timer := none, st := .inited, nFired := a.nFired + 1, lastServed := a.target } e
+    rcases rearm_cases { a with timer := none, st := .inited, nFired := a.nFired + 1, lastServed := a.target } e with ⟨hok, heq⟩ | ⟨_, heq⟩
+    · rw [heq]
+      have hbase : Alarm.base { a with timer := none, st := .inited, nFired := a.nFired + 1, lastServed := a.target } e
           = max e.sec a.target := by unfold Alarm.base; simp only; omega
       obtain ⟨nl, T, d, _, heq, _, h2, _, _⟩ :=
         activeTimer_spec { a with timer := none, st := .inited, nFired := a.nFired + 1, lastServed := a.target } e hs
           (by rw [hbase]; exact hr) (farOk_classic _ e hcron hs (by rw [hbase]; exact hr)) hok
       rw [heq]; rw [hbase] at h2; simp only [armed_target] at h2 ⊢; omega
-    · rw [heq] at hrun; simp at hrun
+    · rw [heq, (unsubscribe_fields _).1] at hrun; simp at hrun
   · intro hnr
     exact (expire_inv a e).idle hnr
 
@@ -234,7 +236,7 @@ destroyed while enabled, after a failed enable(), or from inside another alarm's
 theorem C20_watch_alive (sts : List WStep) (w : World) (he : wExec wInit sts = some w) :
     (∀ j, j ∈ w.watch → (w.get j).isSome = true) ∧ ∀ cal, (wCalUpdate w cal).2 = false :=
   have h := wExec_inv sts wInit w wInit_inv he
-  ⟨h.watch, fun cal => (wCalUpdate_inv w cal h).2⟩
+  ⟨fun j hj => by obtain ⟨a, ha, _⟩ := h.watch j hj; rw [ha]; rfl, fun cal => (wCalUpdate_inv w cal h).2⟩
 
 -- the same is FALSE of the tree without patches/C20-03 (~Alarm() cannot reach WorkdayAlarm::onDisable()):
 /-- enabled workday alarm destroyed the unpatched way: its entry stays in the watch list, the slot is
@@ -320,13 +322,17 @@ theorem C20_refresh_rebases_on_now (a : Alarm) (e : Env) (hrun : a.st = .running
     ∃ nl, Earliest (Matches a e.cal) (addOff e.sec a.offset) nl ∧ (((refresh a e).target : Nat) : Int) + a.offset = nl := by
   have hb : Alarm.base { a with st := .inited, timer := none, target := 0 } e = e.sec := by
     unfold Alarm.base; simp only; omega
-  have href : refresh a e = (activeTimer { a with st := .inited, timer := none, target := 0 } e).1 := by
+  have href0 : refresh a e = rearm { a with st := .inited, timer := none, target := 0 } e := by
     unfold refresh; simp [hrun]
-  rw [href] at hok ⊢
   have hok' : (activeTimer { a with st := .inited, timer := none, target := 0 } e).2 = true := by
-    rcases activeTimer_cases { a with st := .inited, timer := none, target := 0 } e with ⟨h1, _, _⟩ | ⟨_, h2⟩
+    rcases rearm_cases { a with st := .inited, timer := none, target := 0 } e with ⟨h1, _⟩ | ⟨_, h2⟩
     · exact h1
-    · rw [h2] at hok; simp at hok
+    · rw [href0, h2, (unsubscribe_fields _).1] at hok; simp at hok
+  have href : refresh a e = (activeTimer { a with st := .inited, timer := none, target := 0 } e).1 := by
+    rcases rearm_cases { a with st := .inited, timer := none, target := 0 } e with ⟨_, h2⟩ | ⟨h1, _⟩
+    · rw [href0, h2]
+    · rw [hok'] at h1; cases h1
+  rw [href] at hok ⊢
   obtain ⟨nl, h1, h2, _⟩ := C20_tz { a with st := .inited, timer := none, target := 0 } e hs (by rw [hb]; exact hr) hf hok'
   rw [hb] at h1
   exact ⟨nl, h1, h2⟩
@@ -339,10 +345,13 @@ theorem C20_expiry_without_next_instant_goes_idle (a : Alarm) (e : Env)
     (expire a e).1.st = .inited ∧ (expire a e).1.timer = none := by
   have hbase : Alarm.base { a with timer := none, st := .inited, nFired := a.nFired + 1, lastServed := a.target } e
       = max e.sec a.target := by unfold Alarm.base; simp only; omega
-  have hex : (expire a e).1 = (activeTimer { a with timer := none, st := .inited, nFired := a.nFired + 1, lastServed := a.target } e).1 := by
+  have hex : (expire a e).1 = rearm { a with timer := none, st := .inited, nFired := a.nFired + 1, lastServed := a.target } e := by
     unfold expire; cases hc : a.cls <;> simp_all
-  rw [hex, activeTimer_of_none _ e (by rw [hbase]; exact hn)]
-  exact ⟨rfl, rfl⟩
+  have hnone := activeTimer_of_none { a with timer := none, st := .inited, nFired := a.nFired + 1, lastServed := a.target } e (by rw [hbase]; exact hn)
+  rcases rearm_cases { a with timer := none, st := .inited, nFired := a.nFired + 1, lastServed := a.target } e with ⟨h1, _⟩ | ⟨_, h2⟩
+  · rw [hnone] at h1; cases h1
+  · rw [hex, h2, (unsubscribe_fields _).1, (unsubscribe_fields _).2.1]
+    exact ⟨rfl, rfl⟩
 
 /-- **a rejected re-initialisation changes nothing** (patches/C20-10): CronAlarm::initialize with an
 expression the parser rejects leaves the stored expression, the state and everything else as they were. -/
@@ -414,9 +423,41 @@ theorem C20_cdo_next_forward (e : CC.CExpr) (hw : CC.WF e) (dot fuel : Nat) (c c
     (h : CC.doNext e dot fuel c = some c') : CC.timegm c ≤ CC.timegm c' :=
   CC.doNext_forward e hw dot fuel c c' hn h
 
--- OPEN: `C20_cnext_earliest` — CC.cronNext e t fuel = Cron.nextCron e.toExpr t H for sufficient fuel / H (minimality: no
---   matching instant between t and r; the exact year horizon; sufficiency of the fuel); `Cron.nextCron` IS proved earliest (`C20_cron_earliest`, `C20_cron_horizon`), and the driver
---   compares the two on every generated case (a disagreement is reported as a broken correspondence of the model).
+/-- **`do_next` skips no matching instant**: from any normalised calendar `gmtime T`, any `dot` and fuel, when the transcribed
+`do_next` reports success no instant in [T, result) has all six fields allowed — every `find_next` jumps to the least allowed
+value ≥ the current one of its field and resets exactly the lower fields to their least values; the day loop passes only days
+whose day of month or weekday is excluded; the month roll-over stays inside the following year (month lengths of CalLaws). -/
+theorem C20_cdo_next_skips_nothing (e : CC.CExpr) (hw : CC.WF e) (dot fuel T : Nat) (c' : CC.Tm)
+    (h : CC.doNext e dot fuel (CC.gmtime T) = some c') : ∀ r, T ≤ r → r < CC.timegm c' → ¬ CC.MatchTm e (CC.gmtime r) :=
+  CC.doNext_skip e hw dot fuel T c' h
+
+-- OPEN: `C20_cnext_earliest` — CC.cronNext e t fuel = Cron.nextCron e.toExpr t H for all sufficiently large fuel / H.
+--   PROVED below: whenever the transcription returns an instant it is THE earliest match (hypothesis: it returns one — decidable).
+--   Missing for the full equality, precisely: (a) fuel sufficiency — a bound F(e) with `fuel ≥ F → (doNext e dot fuel c = none →
+--   the horizon test fired)`: needs a measure of the recursion (each recursive call happens after its block moved its field
+--   strictly forward; depth ≤ 60 + 24 + 366·… + 12·6); (b) horizon exactness — the test `tm_year − dot > 4` at a month change fires
+--   iff the reference's `yearOf l > cronDot e t + 4` at its month jump (needs: the landing day of `findNext months` is the
+--   reference's `leastFrom monP (d+1) 400`).  The driver compares the two answers on every generated case.
+/-- **minimality of the transcribed `cron_next`** (partial: given that it returns an instant): for every string the parser
+accepts, every t and every fuel, the instant returned is strictly after t, matches all six fields, and NO instant strictly
+between t and it matches — it is the declaratively earliest match, the same notion the weekly / workday theorems use. -/
+theorem C20_cnext_earliest_partial (s : List Char) (e : CC.CExpr) (t fuel r : Nat) (hp : CC.parseExpr s = some e)
+    (h : CC.cronNext e t fuel = some r) : Earliest (Cron.CronMatch e.toExpr) t r :=
+  CC.cronNext_earliest e (CC.parseExpr_wf s e hp) t fuel r h
+
+/-- … hence transcription and reference can never return different instants: when both answer, the answers are equal
+(for every fuel and every scan bound of the reference) -/
+theorem C20_cnext_agrees_with_reference (s : List Char) (e : CC.CExpr) (t fuel H r r2 : Nat) (hp : CC.parseExpr s = some e)
+    (h : CC.cronNext e t fuel = some r) (h2 : Cron.nextCron e.toExpr t H = some r2) : r = r2 :=
+  CC.cronNext_eq_reference_of_some e (CC.parseExpr_wf s e hp) t fuel H r r2 h h2
+
+/-- the full equality is false for small fuel (the model's own recursion bound; the C recursion has none): "* * * * * *" at t = 0 -/
+theorem C20_cnext_fuel_counterexample :
+    (CC.parseExpr "* * * * * *".toList).map (fun e => (CC.cronNext e 0 0, CC.cronNext e 0 1, Cron.nextCron e.toExpr 0 4000))
+      = some (none, some 1, some 1) := by decide +kernel
+
+/-- the hypothesis of the partial theorem is satisfiable: a sparse expression whose next instant lies four calendar years ahead -/
+example : (CC.parseExpr "0 0 0 29 2 *".toList).map (fun e => CC.cronNext e 1709164800 300) = some (some 1835395200) := by decide +kernel
 
 /-- the parser on concrete strings: month / day names in any case, `?`, hexadecimal and octal numbers (strtol base 0),
 Sunday as 7, a tab inside a field is dropped; rejected: five fields, a name that is none, `08` (octal), 256 characters -/
@@ -440,11 +481,11 @@ theorem C20_tv_sec_width (e : Env) :
 
 /-- `remainSeconds()` is `target_utc_sec_ - curr_utc_sec` in uint32_t (alarm.cpp:161): exact while the target is ahead,
 and 2^32 − lateness when the wall clock has passed the target of a running alarm (a late pass, a forward jump) -/
-theorem C20_remain_seconds_width (a : Alarm) (e : Env) (hr : a.st = .running) (ht : a.target < U32) (hs : e.sec < U32) :
+theorem C20_remain_seconds_width (a : Alarm) (e : Env) (hr : a.st = .running) (hg : e.gtod = true) (ht : a.target < U32) (hs : e.sec < U32) :
     (e.sec ≤ a.target → remainSeconds a e = a.target - e.sec) ∧
     (a.target < e.sec → remainSeconds a e = U32 - (e.sec - a.target)) := by
   unfold remainSeconds w32
-  simp only [hr, if_true, U32_eq] at *
+  simp only [hr, hg, and_self, if_true, U32_eq] at *
   constructor <;> intro h <;> omega
 
 -- OPEN (false of the code as it is): the arming theorems without `InRange` — the local computation runs in uint32_t.
@@ -506,17 +547,127 @@ theorem C20_rearm_after_clock_jump (a : Alarm) (e : Env) (hcls : a.cls ≠ .ones
     (hr : InRange (max e.sec a.target) a.offset) (hrun : (expire a e).1.st = .running) :
     ∃ nl, Earliest (Matches a e.cal) (addOff (max e.sec a.target) a.offset) nl ∧
       (((expire a e).1.target : Nat) : Int) + a.offset = nl := by
-  have hex : (expire a e).1 = (activeTimer { a with timer := none, st := .inited, nFired := a.nFired + 1, lastServed := a.target } e).1 := by
+  have hex : (expire a e).1 = rearm { a with timer := none, st := .inited, nFired := a.nFired + 1, lastServed := a.target } e := by
     unfold expire; cases hc : a.cls <;> simp_all
   rw [hex] at hrun ⊢
   have hbase : Alarm.base { a with timer := none, st := .inited, nFired := a.nFired + 1, lastServed := a.target } e
       = max e.sec a.target := by unfold Alarm.base; simp only; omega
-  rcases activeTimer_cases { a with timer := none, st := .inited, nFired := a.nFired + 1, lastServed := a.target } e with ⟨hok, _, _⟩ | ⟨_, heq⟩
-  · obtain ⟨nl, h1, h2, _⟩ := C20_tz { a with timer := none, st := .inited, nFired := a.nFired + 1, lastServed := a.target } e hs
+  rcases rearm_cases { a with timer := none, st := .inited, nFired := a.nFired + 1, lastServed := a.target } e with ⟨hok, heq⟩ | ⟨_, heq⟩
+  · rw [heq]
+    obtain ⟨nl, h1, h2, _⟩ := C20_tz { a with timer := none, st := .inited, nFired := a.nFired + 1, lastServed := a.target } e hs
         (by rw [hbase]; exact hr) (farOk_classic _ e hcron hs (by rw [hbase]; exact hr)) hok
     rw [hbase] at h1
     exact ⟨nl, h1, h2⟩
-  · rw [heq] at hrun; simp at hrun
+  · rw [heq, (unsubscribe_fields _).1] at hrun; simp at hrun
+
+/-- an arm in range: UTC+8, 08:30 local every day, now = 2023-11-14 22:13:20.250 UTC -/
+def demoAlarm : Alarm := { cls := .weekly, sod := 30600, mask := 127, st := .inited, tzSet := true, off := 28800 }
+def demoEnv : Env := { wallMs := 1700000000250, monoMs := 5000 }
+
+/-! ### Part 9 — gettimeofday() fails (the kernel's answer is an oracle input of every step: `Env.gtod`) -/
+
+theorem subscribe_keeps (a : Alarm) : (subscribe a).st = a.st ∧ (subscribe a).timer = a.timer ∧ (subscribe a).target = a.target := by
+  unfold subscribe; split <;> simp
+
+/-- **the clock cannot be read**: nothing is ever armed for a made-up instant.  activeTimer() reports failure and changes
+nothing; enable() returns false and leaves state, timer and target as they were (the calendar subscription is taken back,
+patches/C20-11); refresh() of an enabled alarm and the re-arm at an expiry leave the alarm initialised and IDLE with no
+timer (it has to be enabled again once the clock works); remainSeconds() answers 0. -/
+theorem C20_clock_failure_goes_idle (a : Alarm) (e : Env) (hg : e.gtod = false) :
+    activeTimer a e = (a, false) ∧
+    ((enable a e).2 = false ∧ (enable a e).1.st = a.st ∧ (enable a e).1.timer = a.timer ∧ (enable a e).1.target = a.target) ∧
+    (a.st = .running → (refresh a e).st = .inited ∧ (refresh a e).timer = none) ∧
+    (a.cls ≠ .oneshot → (expire a e).1.st = .inited ∧ (expire a e).1.timer = none) ∧
+    remainSeconds a e = 0 := by
+  refine ⟨activeTimer_of_clock_failure a e hg, ?_, ?_, ?_, ?_⟩
+  · unfold enable
+    split
+    · rw [activeTimer_of_clock_failure _ e hg]
+      obtain ⟨u1, u2, u3, _⟩ := unsubscribe_fields (subscribe a)
+      obtain ⟨s1, s2, s3⟩ := subscribe_keeps a
+      simp only [Bool.false_eq_true, if_false]
+      exact ⟨trivial, by rw [u1, s1], by rw [u2, s2], by rw [u3, s3]⟩
+    · exact ⟨rfl, rfl, rfl, rfl⟩
+  · intro hr
+    unfold refresh rearm
+    simp only [hr, if_true]
+    rw [activeTimer_of_clock_failure _ e hg]
+    simp only [Bool.false_eq_true, if_false]
+    rw [(unsubscribe_fields _).1, (unsubscribe_fields _).2.1]
+    exact ⟨rfl, rfl⟩
+  · intro hc
+    have hex : (expire a e).1 = rearm { a with timer := none, st := .inited, nFired := a.nFired + 1, lastServed := a.target } e := by
+      unfold expire; cases hcl : a.cls <;> simp_all
+    rw [hex]
+    unfold rearm
+    rw [activeTimer_of_clock_failure _ e hg]
+    simp only [Bool.false_eq_true, if_false]
+    rw [(unsubscribe_fields _).1, (unsubscribe_fields _).2.1]
+    exact ⟨rfl, rfl⟩
+  · unfold remainSeconds; simp [hg]
+
+/-- and a successful arm did read the clock: every conclusion of the arming theorems holds for whatever the oracle answers -/
+theorem C20_arm_implies_clock_read (a : Alarm) (e : Env) (hok : (activeTimer a e).2 = true) : e.gtod = true :=
+  activeTimer_ok_clock a e hok
+
+/-! ### Part 10 — the life time of the WorkdayCalendar (raw pointer `wp_calendar_`; contract: the calendar outlives every alarm
+that is ENABLED with it — `wValid` allows `caldel` only when no workday alarm is enabled, `enable` of an initialised workday
+alarm only while the calendar exists).  `w.uaf` records a step that went through the pointer after the calendar's destruction. -/
+
+/-- **the calendar is never touched after its destruction**, in every world execution that keeps the user's side of the
+contract — whatever else happens: alarms that were never enabled, were disabled, whose enable() failed or that went idle by
+themselves at a refresh / expiry are re-initialised (rejected: there is no calendar), cleaned up and DESTROYED after the
+calendar.  Holds because of patches/C20-11: the watch list holds enabled workday alarms only, so an alarm that is not enabled
+has nothing to unsubscribe and its destructor does not use the pointer. -/
+theorem C20_calendar_not_used_after_destruction (sts : List WStep) (w : World) (he : wExec wInit sts = some w) :
+    w.uaf = false ∧
+    (∀ j, j ∈ w.watch → ∃ a, w.get j = some a ∧ a.st = .running ∧ a.cls = .workday) ∧
+    (w.calAlive = false → ∀ j a, w.get j = some a → a.cls = .workday → a.st ≠ .running) :=
+  have h := wExec_inv sts wInit w wInit_inv he
+  ⟨h.uaf, h.watch, h.dead⟩
+
+/-- destroying an alarm that is not an enabled workday alarm does not go through the calendar pointer, in ANY world -/
+theorem C20_destroy_idle_leaves_calendar_alone (w : World) (j : Nat) (a : Alarm) (hg : w.get j = some a)
+    (hn : ¬ (a.st = .running ∧ a.cls = .workday)) : (wDestroy w j).uaf = w.uaf ∧ (wDestroy w j).watch = w.watch := by
+  unfold wDestroy
+  simp only [hg, hn, decide_false, Bool.false_eq_true, if_false]
+  exact ⟨rfl, rfl⟩
+
+-- the same is FALSE of the tree before patches/C20-11 (destructor: `cleanup(); if (wp_calendar_) wp_calendar_->unsubscribe(this);`):
+/-- the legal order "alarm disabled, calendar destroyed, alarm destroyed": the as-found destructor goes through the dangling
+pointer (heap-use-after-free under ASan on the real code, corpus/C20/16); the repaired one does not. -/
+theorem C20_destroy_after_calendar_counterexample :
+    (wExec wInit [.op (.new 0 .workday []), .op (.init 0 100 [] true), .op (.enable 0), .op (.disable 0), .op .caldel]).map
+      (fun w => ((wDestroyAsFound w 0).uaf, (wDestroy w 0).uaf, w.watch, w.calAlive)) = some (true, false, [], false) := by decide
+
+/-- `caldel` while a workday alarm is enabled is the USER's contract violation: such a step is not an execution -/
+example : wExec wInit [.op (.new 0 .workday []), .op (.init 0 100 [] true), .op (.enable 0), .op .caldel] = none := by decide
+
+/-! ### Part 11 — the same input again on one armed object (every "unchanged? then skip" shortcut must keep the armed target) -/
+
+/-- **calls that repeat what the object already has change nothing**: initialize() of an ENABLED alarm (any specification,
+in particular the one it runs with) is rejected and leaves it as it is, so is a second enable(); setTimezone() to the offset
+already set, refresh() / disable() of an alarm that is not enabled are the identity. -/
+theorem C20_repeated_calls_change_nothing (a : Alarm) (e : Env) :
+    (a.st = .running → (∀ sod m wd, initAlarm a sod m wd = (a, false)) ∧ (∀ x, initCron a x = (a, false)) ∧ enable a e = (a, false)) ∧
+    (a.st ≠ .running → refresh a e = a ∧ disable a = (a, false)) ∧
+    (∀ m : Int, a.tzSet = true → a.off = m * 60 → setTimezone a m = a) := by
+  refine ⟨fun hr => ⟨fun sod m wd => ?_, fun x => ?_, ?_⟩, fun hr => ⟨refresh_idle a e hr, by unfold disable; simp [hr]⟩, fun m h1 h2 => ?_⟩
+  · unfold initAlarm initClassic; by_cases hc : a.cls = .cron <;> simp [hc, hr]
+  · unfold initCron; by_cases hc : a.cls ≠ .cron <;> simp [hc, hr]
+  · unfold enable; simp [hr]
+  · unfold setTimezone; rw [← h2, ← h1]
+
+/-- **refresh() of an armed alarm keeps the armed instant when nothing changed**: with the same clocks and calendar a second
+refresh() arms exactly what the first one armed (same target, same timer deadline, same state) — for every alarm, clock and
+calendar: a calendar update that changes nothing, or refresh() twice, cannot move or lose the target. -/
+theorem C20_refresh_again_same_target (a : Alarm) (e : Env) :
+    (refresh (refresh a e) e).target = (refresh a e).target ∧ (refresh (refresh a e) e).timer = (refresh a e).timer ∧
+    (refresh (refresh a e) e).st = (refresh a e).st :=
+  refresh_again a e
+
+/-- the target a running alarm stands for survives a refresh() issued before it is served (same wall second as the arm) -/
+example : (refresh { demoAlarm with st := .running, target := 1700008200, timer := some 1 } demoEnv).target = 1700008200 := by decide
 
 /-! ### non-vacuity -/
 
@@ -531,9 +682,6 @@ example : nextWorkday 30600 {} true 1700000000 = some 1700037000 := by decide
 /-- a workday calendar with a matching day inside the scan window -/
 example : ∃ r', 1700000000 < r' ∧ r' / D < 1700000000 / D + 367 ∧ WorkdayMatch 30600 {} true r' :=
   ⟨1700037000, by decide, by decide, by decide, by decide⟩
-/-- an arm in range: UTC+8, 08:30 local every day, now = 2023-11-14 22:13:20.250 UTC -/
-def demoAlarm : Alarm := { cls := .weekly, sod := 30600, mask := 127, st := .inited, tzSet := true, off := 28800 }
-def demoEnv : Env := { wallMs := 1700000000250, monoMs := 5000 }
 example : InRange (max demoEnv.sec demoAlarm.target) demoAlarm.offset := by decide
 example : (activeTimer demoAlarm demoEnv).2 = true ∧ (activeTimer demoAlarm demoEnv).1.target = 1700008200 ∧
     (activeTimer demoAlarm demoEnv).1.timer = some (5000 + 8199750) := by decide
